@@ -4,7 +4,7 @@ import os
 
 ROOT = os.path.dirname(os.path.dirname(os.path.abspath(__file__)))
 
-HOOK_COMMITS = ["d977877", "e9cf669"]
+HOOK_COMMITS = ["42434d0", "d977877", "e9cf669"]
 
 CHECKS = {
     "C13": dict(
@@ -97,6 +97,19 @@ CHECKS["C15"] = dict(
     note="Trusted: TLC; for the curated dictionary the harness's own word set (from words_iter) decides "
          "membership and the mutable back-end's full scan is the completeness reference.",
     ref="4 C15", technique="TLA+ model checking (TLC) + spec-to-code replay + trace validation")
+
+CHECKS["C05"] = dict(
+    text="LintGroup::lint with its LRU chunk cache is specified in spec/LintGroup.tla with uninterpreted rule "
+         "semantics that read exactly what the real rules read (tokens); TLC checks CacheUnobservable for all "
+         "histories of SetConfig/Lint over documents whose chunks collide by construction (same characters, "
+         "different tokens; same clause at two offsets; repeated clause), with capacity 2 so eviction is covered. "
+         "Every TLC history is concretised through real document pools and run on one long-lived real LintGroup; "
+         "each step is compared with a freshly built group and the hook's hit/miss counters are compared with "
+         "the trace spec's cache prediction (spec/trace/Trace_LintGroup.tla). Further: random histories in two "
+         "languages with config switches, the same documents on 1/2/8 threads and in a second process.",
+    note="Trusted: TLC; lint identity = digest of the serialised lint. A run in which the cache is never hit "
+         "is rejected as vacuous.",
+    ref="4 C05", technique="TLA+ model checking (TLC) + spec-to-code replay + stateful trace validation")
 
 NOT_YET = {}
 
